@@ -659,6 +659,25 @@ func genReconn(r *Rng, prop string) *Scenario {
 		sc.Ops = append(sc.Ops, Op{AtUs: at, Actor: 3, Kind: "disconnect", Token: "base"})
 		lastOp = at
 	}
+	if (prop == "C02" || prop == "C01" || prop == "C12" || prop == "C03") && r.chance(0.15) {
+		// a broker that acknowledges twice
+		for i := 0; i < int(r.between(1, 3)); i++ {
+			sc.Faults = append(sc.Faults, Fault{Kind: "dupB2C", Conn: 1 + r.weighted(6, 3, 1), N: int(r.between(1, int64(nreq)+3))})
+		}
+	}
+	if prop == "C12" && r.chance(0.05) {
+		// aimed: the PUBREC of a QoS 2 publish is lost with connection 1; right
+		// after the CONNACK of connection 2, before the client has retransmitted,
+		// the broker sends that PUBREC (nobody waits for it there)
+		cfg.Yields, cfg.EarlyReply, cfg.Frag, cfg.JitterUs = nil, false, nil, nil
+		cfg.CleanSession, cfg.DirectQoS0, cfg.ResponseTimeoutUs = false, false, 0
+		cfg.PingIntervalUs, cfg.KeepAliveSec = 0, 0
+		_, id := nextID(cfg.InitIDs[0])
+		sc.Ops = []Op{{AtUs: 0, Actor: 0, Kind: "connect"}, {AtUs: 2000, Actor: 1, Kind: "publish", QoS: 2, Topic: "a", Token: "m1"}}
+		sc.Faults = []Fault{{Kind: "cutAfter", Conn: 1, N: 1}}
+		sc.Script = []Out{{Conn: 2, AfterConnack: true, Glue: r.chance(0.5), DelayUs: r.between(0, 20), Kind: "pkt", Pkt: &Pkt{Type: TPubRec, ID: id}}}
+		lastOp = 2000
+	}
 	if prop == "C08" && r.chance(0.06) {
 		// aimed: the re-subscription requested for connection 2 (session lost) is
 		// still waiting behind a parked task when connection 2 dies and connection
